@@ -47,7 +47,7 @@ def jsonable(x, depth=0):
         return x
     if isinstance(x, float):
         if x != x or x in (float('inf'), float('-inf')):
-            return repr(x)
+            return {'__float__': repr(x)}
         return x
     if isinstance(x, bytes):
         return {'__bytes__': x.hex()}
@@ -62,6 +62,8 @@ def unjson(x):
     if isinstance(x, dict):
         if set(x) == {'__bytes__'}:
             return bytes.fromhex(x['__bytes__'])
+        if set(x) == {'__float__'}:
+            return float(x['__float__'])
         return {k: unjson(v) for k, v in x.items()}
     if isinstance(x, list):
         return [unjson(v) for v in x]
@@ -151,7 +153,7 @@ class Recorder:
             return
         self._vkeys.add(key)
         self.violations.append({'kind': kind, 'case': jsonable(case),
-                                'detail': clip(detail, 2000)})
+                                'detail': clip(detail, 2000), 'vkey': key})
 
     def inconclusive_(self, why):
         if why not in self.inconclusive:
